@@ -53,6 +53,13 @@ def apply_edit(root, m):
 
 
 def run_one(m, keep=False):
+    try:
+        return _run_one(m, keep)
+    except Exception as e:  # a broken catalogue entry must not stop the sweep
+        return m, False, [("-", -1, False, "catalogue entry failed: %r" % e)]
+
+
+def _run_one(m, keep=False):
     root = tempfile.mkdtemp(prefix="simself-%s-" % m["id"], dir="/tmp")
     try:
         subprocess.check_call(["rsync", "-a", "--exclude", "target", "--exclude", ".git", REPO + "/", root + "/"])
